@@ -92,6 +92,9 @@ class ExtGrid(NodeElementComponent):
 
         p_grids = np.isin(ext_grids.type.values, ["p", "pt"]) & ext_grids.in_service.values
         junction = cls.get_connected_junction(net).values
+        # an external grid at a junction that is not part of the calculation does not feed in
+        junction_nodes = get_lookup(net, "node", "index")[cls.get_connected_node_type().table_name()][junction]
+        p_grids &= get_lookup(net, "node", "active_hydraulics")[junction_nodes]
         # get indices in internal structure for junctions in ext_grid tables which are "active"
         eg_nodes = get_lookup(net, "node", "index")[cls.get_connected_node_type().table_name()][
             junction[p_grids]]
